@@ -85,6 +85,12 @@ package memdb
 //@   safety off
 //@   ensures [C14:size-is-the-byte-count] result == p.kvSize
 
+// (left abstract for the lookups of package leveldb, which check what they do with its results; what Find returns is
+// the C14 contract above)
+//@ func (*DB).Find
+//@   props C01 C03 C11 C19
+//@   trusted
+
 // (left abstract for the callers that only hand it a range: C02 range slicing)
 //@ func (*DB).NewIterator
 //@   props C02 C11
